@@ -31,9 +31,12 @@ RULE = (
     "Non-trivial = a history with a step whose operand was itself produced by an earlier step, on data with > 1 byte "
     "per sample."
 )
+RULE += (
+    ' Also: join over one-shot iterables (generator, iter, map) and tuples must equal the list join; join over a generator of 250..900 temporaries, optionally ended by a region of another format (error expected, several attempts); regions of 700..160000 samples divided into 700..8000 pieces.'
+)
 MUST_HIT = ["div_remainder_multichannel", "div_n_gt_len", "mismatch_sr", "mismatch_sw", "mismatch_ch", "join_3",
             "mutation_refused", "ragged_refused", "silence", "eq_true", "eq_false", "twin_same_bytes_per_sample", "format_grid",
-            "silence_over_1MiB"]
+            "silence_over_1MiB", "join_one_shot_iterable", "div_into_700_or_more", "join_many_then_mismatch"]
 ASSUMPTIONS = ["dividing an empty region is not claimed by the statement and not generated"]
 BOUNDS = {"quick": dict(n=200, steps=30), "thorough": dict(n=4000, steps=50)}
 MAXBYTES = 6000
@@ -191,7 +194,13 @@ class Interp:
             self.touch(ms, dsep, *[d for _r, _m, d in items])
             if len(items) >= 3:
                 self.classes.add("join_3")
-            self.combine(lambda: sep.join([r for r, _m, _d in items]), [ms] + [m for _r, m, _d in items],
+            how = op[3] if len(op) > 3 else "list"
+            regs = [r for r, _m, _d in items]
+            others = {"list": lambda: regs, "tuple": lambda: tuple(regs), "gen": lambda: (r for r in regs),
+                      "iter": lambda: iter(regs), "map": lambda: map(lambda r: r, regs)}[how]
+            if how != "list":
+                self.classes.add("join_one_shot_iterable" if how != "tuple" else "join_tuple")
+            self.combine(lambda: sep.join(others()), [ms] + [m for _r, m, _d in items],
                          ms[0].join(m[0] for _r, m, _d in items), max([dsep] + [d for _r, _m, d in items]) + 1)
         elif name == "silence":
             _n, k, eps, f = op
@@ -292,9 +301,85 @@ def check_grid(case, rec):
     rec.note(case, True, {"format_grid"}, out={"pairs": n})
 
 
+def check_div_big(case, rec):
+    """a region of L samples divided into n pieces, min(n, L) in the hundreds or thousands"""
+    L, n, (sr, sw, ch), salt = case["div_big"]
+    bps = sw * ch
+    data = content(L, bps, salt)
+    with lib_guard(lambda: case):
+        pieces = auditok.AudioRegion(data, sr, sw, ch) / n
+    lens = [len(p) for p in pieces]
+    if len(pieces) != min(n, L):
+        raise Violation(f"{L} samples / {n} gave {len(pieces)} pieces, expected {min(n, L)}", case)
+    if max(lens) - min(lens) > 1:
+        raise Violation(f"{L} samples / {n}: piece lengths between {min(lens)} and {max(lens)}", case)
+    if b"".join(bytes(p) for p in pieces) != data:
+        raise Violation(f"{L} samples / {n}: the pieces do not concatenate to the original", case)
+    if any((p.sr, p.sw, p.ch) != (sr, sw, ch) for p in pieces):
+        raise Violation("a piece has another format than the region divided", case)
+    rec.note(case, bps > 1, {"div_into_700_or_more"}, out={"pieces": len(pieces)})
+
+
+def check_join_many(case, rec):
+    """sep.join(<generator of temporaries>): hundreds of regions that only exist while the join looks at
+    them (the documented silence.join(split(...)) idiom), optionally followed by one of another format.
+    The result must be what the same join over a list gives: the interleaving, or AudioParameterError."""
+    cfg = case["join_many"]
+    sr, sw, ch = cfg["fmt"]
+    bps = sw * ch
+    sep = auditok.AudioRegion(content(cfg["sep"], bps, 5), sr, sw, ch)
+    bad = cfg.get("bad")
+    badfmt = None if bad is None else [(sr + 1, sw, ch), (sr, {1: 2, 2: 4, 4: 1}[sw], ch), (sr, sw, ch + 1)][bad]
+    classes = {"join_many_temporaries"}
+    for attempt in range(cfg.get("attempts", 1)):
+        count = cfg["count"] + 37 * attempt
+        datas = [content(1 + (i + attempt) % 3, bps, i) for i in range(count)]
+
+        def temporaries():
+            for d in datas:
+                yield auditok.AudioRegion(d, sr, sw, ch)
+            if badfmt is not None:
+                yield auditok.AudioRegion(bytes(badfmt[1] * badfmt[2]), *badfmt)
+
+        with lib_guard(lambda: case):
+            try:
+                res = sep.join(temporaries())
+                raised = False
+            except AudioParameterError:
+                raised = True
+        if badfmt is not None:
+            classes.add("join_many_then_mismatch")
+            if not raised:
+                raise Violation(
+                    f"join over a generator of {count} temporaries followed by a region of format {badfmt} "
+                    f"(separator {(sr, sw, ch)}) produced a result instead of AudioParameterError", case)
+        else:
+            if raised:
+                raise Violation("AudioParameterError although every region shares the separator's format", case)
+            if bytes(res) != bytes(sep).join(datas) or (res.sr, res.sw, res.ch) != (sr, sw, ch):
+                raise Violation(f"join over a generator of {count} temporaries is not the interleaving "
+                                f"({len(bytes(res))} bytes, expected {len(bytes(sep).join(datas))})", case)
+    rec.note(case, bps > 1, classes, out={"count": cfg["count"]})
+
+
+@st.composite
+def big_case(draw):
+    fmt = [draw(st.sampled_from([8000, 16000, 10])), draw(st.sampled_from([1, 2, 4])), draw(st.integers(1, 3))]
+    if draw(st.booleans()):
+        L = draw(st.integers(700, 6000))
+        n = draw(st.one_of(st.integers(700, 8000), st.sampled_from([L - 1, L, L + 1, 2 * L])))
+        return {"div_big": [L, n, fmt, draw(st.integers(0, 99))]}
+    return {"join_many": {"fmt": fmt, "sep": draw(st.integers(0, 3)), "count": draw(st.integers(250, 700)),
+                          "bad": draw(st.sampled_from([None, 0, 1, 2, 0, 1, 2])), "attempts": 6}}
+
+
 def check_case(case, rec):
     if "grid_fmt" in case:
         return check_grid(case, rec)
+    if "div_big" in case:
+        return check_div_big(case, rec)
+    if "join_many" in case:
+        return check_join_many(case, rec)
     it = Interp(case["cfg"])
     for op in case["ops"]:
         it.apply(op)
@@ -343,9 +428,9 @@ class AlgebraMachine(RuleBasedStateMachine):
     def div(self, i, n):
         self.it.apply(["div", i, n])
 
-    @rule(i=IDX, ids=st.lists(IDX, min_size=0, max_size=4))
-    def join(self, i, ids):
-        self.it.apply(["join", i, ids])
+    @rule(i=IDX, ids=st.lists(IDX, min_size=0, max_size=4), how=st.sampled_from(["list", "list", "tuple", "gen", "iter", "map"]))
+    def join(self, i, ids, how):
+        self.it.apply(["join", i, ids, how])
 
     @rule(k=st.integers(0, 12), eps=st.sampled_from([0.0, 0.25, 0.5, 0.75, -0.25]), f=FMT)
     def silence(self, k, eps, f):
@@ -391,12 +476,23 @@ def explicit_cases():
                              ["join", 0, [5]], ["twin", 0, 0]]},
         {"cfg": {"fmt": [16000, 2, 1]}, "ops": [["silence", 640000, 0.0, 0], ["silence", 524289, 0.5, 0], ["eq", 0, 1]]},
         {"cfg": {"fmt": [8000, 2, 3]}, "ops": [["silence", 200000, 0.0, 0]]},
+        {"cfg": cfg, "ops": [["new", 7, 0, 1, None], ["new", 3, 0, 2, 1.5], ["new", 2, 0, 3, None], ["join", 1, [0, 2, 1], "gen"],
+                             ["join", 0, [1, 2], "iter"], ["join", 2, [0, 1, 2], "map"], ["join", 2, [0, 1], "tuple"],
+                             ["new", 4, 3, 1, None], ["join", 0, [1, 6], "gen"]]},
+        {"div_big": [2000, 747, [16000, 2, 1], 1]}, {"div_big": [2000, 1000, [16000, 2, 2], 2]},
+        {"div_big": [2000, 1500, [8000, 1, 1], 3]}, {"div_big": [1200, 3000, [10, 4, 3], 4]},
+        {"div_big": [5000, 5000, [10, 2, 1], 5]}, {"div_big": [160000, 1000, [16000, 2, 1], 6]},
+        {"join_many": {"fmt": [16000, 2, 1], "sep": 2, "count": 300, "bad": None, "attempts": 1}},
+        {"join_many": {"fmt": [16000, 2, 1], "sep": 2, "count": 300, "bad": 0, "attempts": 8}},
+        {"join_many": {"fmt": [8000, 2, 2], "sep": 1, "count": 450, "bad": 2, "attempts": 8}},
+        {"join_many": {"fmt": [8000, 1, 2], "sep": 0, "count": 600, "bad": 1, "attempts": 8}},
     ]
 
 
 def jobs(tier, seed):
     b = BOUNDS[tier]
     out = [{"name": f"grid-{sr}", "kind": "grid", "sr": sr} for sr in GRID_SR]
+    out += [{"name": f"big-{i}", "kind": "big", "seed": seed * 1000 + 500 + i, "n": 12 if tier == "quick" else 150} for i in range(4)]
     out += [{"name": f"sm-{i}", "kind": "sm", "seed": seed * 1000 + i, "n": b["n"], "steps": b["steps"]} for i in range(16)]
     return out
 
@@ -407,6 +503,10 @@ def run_job(job, rec):
         from ..common import run_cases
 
         run_cases(mod, ({"grid_fmt": [job["sr"], sw, ch]} for sw in GRID_SW for ch in GRID_CH), rec)
+    elif job["kind"] == "big":
+        from ..common import hyp_run
+
+        hyp_run(mod, big_case(), rec, job["seed"], job["n"])
     else:
         hyp_run_machine(mod, AlgebraMachine, rec, job["seed"], job["n"], job["steps"])
 
